@@ -206,6 +206,16 @@ async fn run_case<TC: Tcfg>(case: &Case, st: &mut Stats) -> R {
                 run_schedule::<TC>(&sc, case.mgr, &Policy::Preempt(vec![(s, a)]), st).await?;
             }
         }
+        // every other actor as the FIRST to run, combined with every single later preemption (one actor gets far ahead,
+        // is then held at one storage operation while the others run to completion)
+        for a0 in 0..others {
+            let stride = if nconc >= 3 { 2 } else { 1 };
+            for s in (1..t + 4).step_by(stride) {
+                for a in 0..others {
+                    run_schedule::<TC>(&sc, case.mgr, &Policy::Preempt(vec![(0, a0), (s, a)]), st).await?;
+                }
+            }
+        }
         // double preemptions: deterministic stride through the (s1 < s2) space within the budget
         let total = (t as u64) * (t as u64 + 20) / 2;
         let stride = (total / case.enumerate as u64).max(1);
@@ -342,8 +352,8 @@ pub fn run(eng: &mut Engine) {
     eng.assume("all publishes are issued on clones of one Directory (sharing its storage manager), cached and uncached");
     eng.prop_part(
         "schedules",
-        "generated scenarios: 0-3 sequential publishes then 2-3 concurrent publish calls (overlapping / disjoint labels, no-ops, rejected batches) on clones of one directory; per scenario the non-preemptive schedule, ALL single preemptions, a strided sample of double preemptions and generated random schedules; oracle: some sequential order of the successful calls reproduces every returned (epoch, root) on the model, final state (same + fresh instance), lookups and audit(e0, final) agree with it, failed calls leave no trace, no transaction left open; evaluations = schedules executed; non-trivial = schedule with at least one preemption, distinct by (scenario, actor-per-step trace)",
-        eng.tier.pick(64, 480),
+        "generated scenarios: 0-3 sequential publishes then 2-3 concurrent publish calls (overlapping / disjoint labels, no-ops, rejected batches) on clones of one directory; per scenario the non-preemptive schedule, ALL single preemptions, every choice of first actor combined with every (every second, for 3 actors) later single preemption, a strided sample of other double preemptions and generated random schedules; oracle: some sequential order of the successful calls reproduces every returned (epoch, root) on the model, final state (same + fresh instance), lookups and audit(e0, final) agree with it, failed calls leave no trace, no transaction left open; evaluations = schedules executed; non-trivial = schedule with at least one preemption, distinct by (scenario, actor-per-step trace)",
+        eng.tier.pick(48, 360),
         move || strategy(thorough),
         check,
     );
